@@ -15,7 +15,12 @@ variable {R : Type} [CommRing R]
 def OnQuadric (p : Ext R) : Prop := p.t * p.z = p.x * p.y
 
 /-- projective equality as the code's `projective_equal` tests it: all cross products agree.
-On a composite modulus (no inverses) this is all that "the same point" can mean. -/
+On a composite modulus (no inverses) this is all that "the same point" can mean.
+CAUTION: the relation is vacuous when one side is the zero triple `(0, 0, 0)` (which is not a
+projective point): every statement `ProjEq a b` below is informative only where both triples are
+non-zero modulo every prime factor of the modulus. The dedicated formulas `addext`/`addextproj`/
+`subextproj`/`dbladd` do return the zero triple on valid inputs (`addext_self`: whenever the two
+arguments are equal), so agreement with the unified `add` is exactly "equal, or degenerate". -/
 def ProjEq (p q : Pt R) : Prop :=
   p.x * q.y = p.y * q.x ∧ p.y * q.z = p.z * q.y ∧ p.z * q.x = p.x * q.z
 
